@@ -56,6 +56,11 @@ func (s *failSigner) Sign(r io.Reader, d []byte, o crypto.SignerOpts) ([]byte, e
 	return s.inner.Sign(r, d, o)
 }
 
+// rawValue receives a variable's value undecoded.
+type rawValue []byte
+
+func (r *rawValue) Unmarshal(b *bytes.Buffer) error { *r = append([]byte{}, b.Bytes()...); return nil }
+
 func mutating(op string) bool {
 	return strings.HasPrefix(op, "File.Write") || strings.HasPrefix(op, "File.Truncate") || op == "Fs.Remove" || op == "Fs.RemoveAll" || op == "Fs.Rename" || op == "Fs.Create"
 }
@@ -139,6 +144,24 @@ func genCase(t *rapid.T) Case {
 		if l.Type != esl.ExtMgm {
 			keep = append(keep, l)
 		}
+	}
+	if gen.Chance(t, "bigvariable", 1, 12) {
+		// a variable larger than 64 KiB (a revocation list of 1400..1600 hashes): buffers, limits and read sizes that
+		// are fine for small variables meet their bounds here
+		n := rapid.IntRange(1366, 1600).Draw(t, "nhashes")
+		l := esl.List{Type: esl.SHA256, Size: 48}
+		seed := rapid.Uint64().Draw(t, "hashseed") | 1
+		for i := 0; i < n; i++ {
+			d := make([]byte, 32)
+			for j := range d {
+				seed ^= seed << 13
+				seed ^= seed >> 7
+				seed ^= seed << 17
+				d[j] = byte(seed >> 24)
+			}
+			l.Entries = append(l.Entries, esl.Entry{Owner: gen.Owners[i%len(gen.Owners)], Data: d})
+		}
+		keep = []esl.List{l}
 	}
 	return Case{Img: gen.PEImage(o).Draw(t, "img"), Payload: esl.Encode(keep), Var: rapid.IntRange(0, 3).Draw(t, "var"), Ident: rapid.IntRange(0, 3).Draw(t, "ident")}
 }
@@ -492,6 +515,15 @@ func checkCase(c Case) error {
 			var got signature.SignatureDatabase
 			err := fs.GetVar(v, &got)
 			return err != nil || bytes.Equal(got.Bytes(), c.Payload), err
+		}},
+		{"GetVar (undecoded value)", false, func(rec *recfs.FS) (bool, error) {
+			// the same read with a receiver that takes the bytes as they are: a value cut short is a wrong value
+			// even where a decoder would have stumbled over the cut
+			fs := efivarfs.NewFS()
+			fs.SetFS(rec)
+			var got rawValue
+			err := fs.GetVar(v, &got)
+			return err != nil || bytes.Equal(got, c.Payload), err
 		}},
 		{"typed getter", false, func(rec *recfs.FS) (bool, error) {
 			fs := efivarfs.NewFS()
